@@ -181,6 +181,10 @@ func c05(tier string) {
 	ctx.ForEach(nGraphs, func(i int) {
 		r := lib.CaseRand(ctx.Seed, 5, i)
 		g := c05Graph(r)
+		if i%5 == 4 {
+			g = g.WithoutNumbers() // every fifth graph holds texts, flags and links only
+			ctx.Count("graphs_without_numeric_literals", 1)
+		}
 		canon := g.CanonicalJSONLD()
 		canonFlat, err := lib.FlattenCanon(canon)
 		if err != nil {
@@ -215,6 +219,12 @@ func c05(tier string) {
 			if v%8 == 3 {
 				if t, ok := g.ScopedContexts(); ok {
 					text, applied = t, []string{"one-context-per-unit(@base)", "embedding", "relative-fragment-ids"}
+				}
+			}
+			if v%8 == 7 || v%8 == 1 && i%5 == 4 {
+				// the normal form itself (what flattening + compaction with an empty context yields), with at most one perturbation
+				if t, a, err := lib.NormalFormVariant(canon, r); err == nil {
+					text, applied = t, a
 				}
 			}
 			flat, err := lib.FlattenCanon(text)
